@@ -913,6 +913,19 @@ rt_prop("C07", ["task", "cancel", "comb"],
         "clause evaluated on the implementation alone).",
         goals=["evict_complete_handoff_free_goal"])
 _add_ext_stream()
+
+
+def _add_fanout_stream():
+    def gen(tier, seed):
+        return [["gen", seed, 600 if tier == "quick" else 20000, "fanout"]]
+    PROPS["C04"]["streams"].append(Stream("fanout", "rt", "rt-C04", gen, nontrivial=rt_nontrivial, shape=rt_shape,
+                                          shrink=sexp_shrinks, compare_model=False))
+    PROPS["C04"]["rule"] += ("; fanout stream (no exact model: flatten_unordered): stream(a).then_stream(|x| stream(b)) with 9-24 "
+                             "items delivered on the outer stream while the inner streams stay open — every accepted item must "
+                             "start exactly one inner stream in that step (key inner-stream-not-started)")
+
+
+_add_fanout_stream()
 rt_prop("C09", ["bridge", "hosts"],
         "Proof (Props/C09.lean): the bridge simulates the typed core step by step — event (bridge_simulates_core_event) and response "
         "(bridge_simulates_core_response): decoded requests = core effects in order, same core state; ids of a batch are pairwise "
